@@ -19,6 +19,8 @@ Record obs := mkO {
   o_votes : list (Z * Z);                         (* HVote: votes of the target proposal afterwards, sorted by voter *)
   o_fvotes : list (Z * list (Z * Z));             (* stored votes (sorted by voter) of the proposals finalised in this HEnd step;
                                                      after HRotate: of every proposal *)
+  o_electorate : list (Z * list Z);               (* HEnd, per non-dynamic proposal finalised in this step: the voters the CODE enumerates
+                                                     (GetNetworkActorsByAbsoluteWhitelistPermission of its vote permission), sorted *)
   o_world : option world }.                       (* the state outside the lifecycle, when it changed *)
 
 (* CScen: a scripted scenario on a REAL multi-step handler of another module (spending, basket, gov
@@ -36,13 +38,17 @@ Fixpoint list_eqb {X} (e : X -> X -> bool) (l m : list X) : bool :=
   match l, m with [], [] => true | x :: l', y :: m' => e x y && list_eqb e l' m' | _, _ => false end.
 Definition zz_eqb (a b : Z * Z) : bool := (fst a =? fst b) && (snd a =? snd b).
 Definition actor_eqb (a b : actor) : bool :=
-  Bool.eqb (a_active a) (a_active b) && Bool.eqb (a_veto a) (a_veto b) && list_eqb Z.eqb (a_wl a) (a_wl b).
+  Bool.eqb (a_active a) (a_active b) && Bool.eqb (a_veto a) (a_veto b) && list_eqb Z.eqb (a_wl a) (a_wl b)
+  && list_eqb Z.eqb (a_bl a) (a_bl b) && list_eqb Z.eqb (a_roles a) (a_roles b).
+Definition actors_eqb (l m : list (Z * actor)) : bool := list_eqb (fun x y => (fst x =? fst y) && actor_eqb (snd x) (snd y)) l m.
+Definition roles_eqb (l m : list (Z * role)) : bool :=
+  list_eqb (fun x y => (fst x =? fst y) && list_eqb Z.eqb (r_wl (snd x)) (r_wl (snd y)) && list_eqb Z.eqb (r_bl (snd x)) (r_bl (snd y))) l m.
 Definition np_eqb (a b : np) : bool :=
   (n_mintx a =? n_mintx b) && (n_maxtx a =? n_maxtx b) && (n_quorum a =? n_quorum b) && (n_endtime a =? n_endtime b)
   && (n_enact a =? n_enact b) && (n_endblocks a =? n_endblocks b) && (n_enactblocks a =? n_enactblocks b).
 Definition world_eqb (a b : world) : bool :=
   np_eqb (w_np a) (w_np b)
-  && list_eqb (fun x y => (fst x =? fst y) && actor_eqb (snd x) (snd y)) (w_actors a) (w_actors b)
+  && actors_eqb (w_actors a) (w_actors b) && roles_eqb (w_roles a) (w_roles b)
   && list_eqb Z.eqb (w_durs a) (w_durs b) && list_eqb Z.eqb (w_reg a) (w_reg b)
   && match w_pool a, w_pool b with
      | None, None => true
@@ -134,7 +140,9 @@ Record prec := mkR {
   r_fin : option (Z * Z);            (* finalisation: height, MinProposalEnactmentBlocks at that moment *)
   r_napplied : nat;
   r_votes : list (Z * Z) }.          (* accepted votes, latest per voter, sorted by voter *)
-Record ck := mkK { k_w : world; k_recs : list prec }.
+(* k_w: the checker's world: permission records (actors, roles) evolved by the checker itself from the
+   accepted operations (ghost), the rest as last observed; k_obs: the last observed world *)
+Record ck := mkK { k_w : world; k_obs : world; k_recs : list prec }.
 
 Fixpoint find_rec (id : Z) (l : list prec) : option prec :=
   match l with [] => None | r :: t => if r_id r =? id then Some r else find_rec id t end.
@@ -147,10 +155,10 @@ Definition spec_effect (ct : ccontent) (w : world) : world :=
   | CRegistry key hash => with_reg w (set_ix key hash (w_reg w))
   | CWhitelist who perm =>
       let a := match get_actor who (w_actors w) with Some a => a | None => default_actor end in
-      with_actors w (put_actor who (mkA (a_active a) (a_veto a) (ins_sorted perm (a_wl a))) (w_actors w))
+      with_actors w (put_actor who (set_wl a (ins_sorted perm (a_wl a))) (w_actors w))
   | CUnwhitelist who perm =>
       match get_actor who (w_actors w) with
-      | Some a => with_actors w (put_actor who (mkA (a_active a) (a_veto a) (del perm (a_wl a))) (w_actors w))
+      | Some a => with_actors w (put_actor who (set_wl a (del perm (a_wl a))) (w_actors w))
       | None => w end
   | CDurations l => with_durs w (fold_left (fun d e => set_ix (fst e) (snd e) d) l (w_durs w))
   | CPoolUpdate name owners q period enact => with_pool w (Some (mkPool owners q period enact))
@@ -165,15 +173,29 @@ Fixpoint uniq (l : list Z) : list Z :=
   match l with [] => [] | x :: r => if mem x r then uniq r else x :: uniq r end.
 Definition dyn_owners (w : world) (ct : ccontent) : list Z :=
   match ct, w_pool w with CPoolUpdate 1 _ _ _ _, Some p => uniq (pl_owners p) | _, _ => [] end.
+(* The checker's own notion of who holds a permission, from ITS ghost record of permission and role
+   edits (never from the code's index enumeration): individually whitelisted or through an assigned
+   role that whitelists it; a blacklist entry (individual or of an assigned role) beats the whitelist. *)
+Definition g_roles_have (rs : list (Z * role)) (a : actor) (sel : role -> list Z) (perm : Z) : bool :=
+  existsb (fun r => match get_role r rs with Some ro => mem perm (sel ro) | None => false end) (a_roles a).
+Definition g_holder (rs : list (Z * role)) (perm : Z) (a : actor) : bool := mem perm (a_wl a) || g_roles_have rs a r_wl perm.
+Definition g_blacklisted (rs : list (Z * role)) (perm : Z) (a : actor) : bool := mem perm (a_bl a) || g_roles_have rs a r_bl perm.
+Definition g_eligible (rs : list (Z * role)) (perm : Z) (a : actor) : bool := g_holder rs perm a && negb (g_blacklisted rs perm a).
+(* the holders, as identifiers: what GetNetworkActorsByAbsoluteWhitelistPermission is meant to enumerate *)
+Definition holders_ids (w : world) (perm : Z) : list Z := map fst (filter (fun ka => g_holder (w_roles w) perm (snd ka)) (w_actors w)).
+Definition holders_count (w : world) (ct : ccontent) : Z := Z.of_nat (List.length (holders_ids w (vote_perm ct))).
+Definition holders_veto (w : world) (ct : ccontent) : Z :=
+  Z.of_nat (List.length (filter (fun ka => g_holder (w_roles w) (vote_perm ct) (snd ka) && a_veto (snd ka)) (w_actors w))).
 Definition eligible (w : world) (ct : ccontent) : Z :=
   if vote_perm ct =? 0 then Z.of_nat (List.length (dyn_owners w ct))
-  else Z.of_nat (List.length (filter (fun ka => mem (vote_perm ct) (a_wl (snd ka))) (w_actors w))).
+  else Z.of_nat (List.length (filter (fun ka => g_eligible (w_roles w) (vote_perm ct) (snd ka)) (w_actors w))).
 Definition veto_capable (w : world) (ct : ccontent) : Z :=
   if vote_perm ct =? 0 then
     Z.of_nat (List.length (filter (fun o => match get_actor o (w_actors w) with Some a => a_veto a | None => false end) (dyn_owners w ct)))
-  else Z.of_nat (List.length (filter (fun ka => mem (vote_perm ct) (a_wl (snd ka)) && a_veto (snd ka)) (w_actors w))).
+  else Z.of_nat (List.length (filter (fun ka => g_eligible (w_roles w) (vote_perm ct) (snd ka) && a_veto (snd ka)) (w_actors w))).
 Definition may_vote (w : world) (who : Z) (ct : ccontent) : bool :=
-  w_is_active w who && (if vote_perm ct =? 0 then mem who (dyn_owners w ct) else w_has_perm w who (vote_perm ct)).
+  w_is_active w who && (if vote_perm ct =? 0 then mem who (dyn_owners w ct)
+                        else match get_actor who (w_actors w) with Some a => g_eligible (w_roles w) (vote_perm ct) a | None => false end).
 Definition spec_quorum (w : world) (ct : ccontent) : Z :=
   if vote_perm ct =? 0 then match ct, w_pool w with CPoolUpdate 1 _ _ _ _, Some p => pl_quorum p | _, _ => 0 end
   else n_quorum (w_np w).
@@ -193,7 +215,9 @@ Definition pass_clauses (w : world) (r : prec) : list string :=
   cl (spec_quorum w ct * eligible w ct <=? total * PREC) "passed_without_quorum"
   ++ cl (total <? 2 * nopt 1 (r_votes r)) "passed_without_majority"
   ++ cl ((vcap =? 0) || (2 * nopt 4 (r_votes r) <? vcap))
-        (if vote_perm ct =? 0 then "passed_despite_veto:dynamic_voter_proposal" else "passed_despite_veto").
+        (if vote_perm ct =? 0 then "passed_despite_veto:dynamic_voter_proposal"
+         else if (holders_veto w ct =? 0) || (2 * nopt 4 (r_votes r) <? holders_veto w ct)
+              then "passed_despite_veto:blacklisted_holders_counted_as_veto_capable" else "passed_despite_veto").
 
 Definition obs_result (id : Z) (o : obs) : option (Z * Z) :=
   option_map (fun e => snd (fst e)) (find (fun e => fst (fst e) =? id) (o_props o)).
@@ -273,24 +297,66 @@ Definition move_vote (old new : Z) (vs : list (Z * Z)) : list (Z * Z) :=
   | Some v => ins_vote new (snd v) (filter (fun x => negb (fst x =? old)) vs)
   | None => vs end.
 
+(* ---- the ghost record of permission / role edits: what each accepted edit means (independent of the keeper) *)
+Definition g_edit (who : Z) (create : bool) (w : world) (f : actor -> option actor) : world :=
+  match (match get_actor who (w_actors w) with Some a => Some a | None => if create then Some default_actor else None end) with
+  | Some a => match f a with Some a' => with_actors w (put_actor who a' (w_actors w)) | None => w end
+  | None => w end.
+Definition g_role_edit (r : Z) (w : world) (f : role -> option role) : world :=
+  match get_role r (w_roles w) with
+  | Some ro => match f ro with Some ro' => with_roles w (put_role r ro' (w_roles w)) | None => w end
+  | None => w end.
+Definition ghost_ext (e : cext) (w : world) : world :=
+  match e with
+  | XWhitelist who p => g_edit who true w (fun a => if mem p (a_wl a) || mem p (a_bl a) then None else Some (set_wl a (ins_sorted p (a_wl a))))
+  | XUnwhitelist who p => g_edit who false w (fun a => if mem p (a_wl a) then Some (set_wl a (del p (a_wl a))) else None)
+  | XBlacklist who p => g_edit who true w (fun a => if mem p (a_wl a) || mem p (a_bl a) then None else Some (set_bl a (ins_sorted p (a_bl a))))
+  | XUnblacklist who p => g_edit who false w (fun a => if mem p (a_bl a) then Some (set_bl a (del p (a_bl a))) else None)
+  | XSetActive who b => g_edit who false w (fun a => Some (mkA b (a_veto a) (a_wl a) (a_bl a) (a_roles a)))
+  | XSetVeto who b => g_edit who false w (fun a => Some (mkA (a_active a) b (a_wl a) (a_bl a) (a_roles a)))
+  | XAssignRole who r => match get_role r (w_roles w) with
+                         | Some _ => g_edit who true w (fun a => if mem r (a_roles a) then None else Some (set_roles a (ins_sorted r (a_roles a))))
+                         | None => w end
+  | XUnassignRole who r => match get_role r (w_roles w) with
+                           | Some _ => g_edit who false w (fun a => if mem r (a_roles a) then Some (set_roles a (del r (a_roles a))) else None)
+                           | None => w end
+  | XRoleWl r p true => g_role_edit r w (fun ro => if mem p (r_wl ro) || mem p (r_bl ro) then None else Some (mkRole (ins_sorted p (r_wl ro)) (r_bl ro)))
+  | XRoleWl r p false => g_role_edit r w (fun ro => if mem p (r_wl ro) then Some (mkRole (del p (r_wl ro)) (r_bl ro)) else None)
+  | XRoleBl r p true => g_role_edit r w (fun ro => if mem p (r_wl ro) || mem p (r_bl ro) then None else Some (mkRole (r_wl ro) (ins_sorted p (r_bl ro))))
+  | XRoleBl r p false => g_role_edit r w (fun ro => if mem p (r_bl ro) then Some (mkRole (r_wl ro) (del p (r_bl ro))) else None)
+  | XSetNP _ _ | XSetDur _ _ => w          (* not a permission edit: that part of the world is taken from the observation *)
+  end.
+(* address rotation: the person's actor record continues under the new address *)
+Definition g_rotate (old new : Z) (w : world) : world :=
+  match get_actor old (w_actors w) with
+  | Some a => with_actors w (put_actor new a (filter (fun ka => negb (fst ka =? old)) (w_actors w)))
+  | None => w end.
+
 Definition ck_step (k : ck) (st : Z * Z * hop * obs) : list string * ck :=
   let '(t, h, hp, o) := st in
   let w := k_w k in
-  let w' := match o_world o with Some x => x | None => w end in
   let is_end := match hp with HEnd => true | _ => false end in
   let accepted := o_res o =? 0 in
+  let obs' := match o_world o with Some x => x | None => k_obs k end in
+  let ghost := if accepted then match hp with
+                                | HExt e => ghost_ext e w
+                                | HRotate old new => g_rotate old new w
+                                | HEnd => expected_world (k_recs k) w (o_applied o)
+                                | _ => w end
+               else w in
+  let w' := mkW (w_np obs') (w_actors ghost) (w_durs obs') (w_reg obs') (w_pool obs') (w_roles ghost) in
   (* clauses that hold for every step *)
   let '(tc, recs1) := map_acc (trans_clauses t h is_end w' o) (k_recs k) in
   let ac := apply_all t h (k_recs k) o [] (o_applied o) in
   let recs2 := bump_applied (o_applied o) recs1 in
   let wc := match hp with
-            | HExt _ => []                                               (* arbitrary other activity *)
-            | HRotate _ _ => []                                          (* the actor record moves: not C08's business *)
-            | HEnd => cl (world_eqb w' (expected_world (k_recs k) w (o_applied o)))
-                         (String.append "atomic" (applied_kinds (k_recs k) w w' (o_applied o)))
-            | _ => cl (world_eqb w' w) "effect_without_enactment" end in
+            | HExt _ | HRotate _ _ =>       (* the stored permission records must be what the accepted edits amount to *)
+                cl (actors_eqb (w_actors obs') (w_actors ghost) && roles_eqb (w_roles obs') (w_roles ghost)) "permission_records_differ_from_ghost"
+            | HEnd => cl (world_eqb obs' ghost)
+                         (String.append "atomic" (applied_kinds (k_recs k) w obs' (o_applied o)))
+            | _ => cl (world_eqb obs' w) "effect_without_enactment" end in
   let oc := match hp with HEnd => [] | _ => cl (match o_applied o with [] => true | _ => false end) "applied_outside_end_block" end in
-  let rej := if accepted then [] else cl (world_eqb w' w) "rejected_changed_state" in
+  let rej := if accepted then [] else cl (world_eqb obs' w) "rejected_changed_state" in
   (* operation specific *)
   let '(sc, recs3) :=
     match hp with
@@ -329,7 +395,12 @@ Definition ck_step (k : ck) (st : Z * Z * hop * obs) : list string * ck :=
                                        (match hp with HRotate _ _ => "stored_votes_after_rotation_differ_from_one_vote_per_person"
                                                  | _ => "counted_votes_differ_from_last_accepted_vote_per_person" end)
                         | None => ["votes_of_unknown_proposal"%string] end) (o_fvotes o) in
-  (tc ++ ac ++ wc ++ oc ++ rej ++ sc ++ fc, mkK w' recs3).
+  (* the voters the code enumerated for the tally vs. the holders according to the ghost record *)
+  let ec := flat_map (fun e : Z * list Z =>
+                        match find_rec (fst e) recs3 with
+                        | Some r => cl (list_eqb Z.eqb (holders_ids w' (vote_perm (r_ct r))) (snd e)) "electorate:mismatch"
+                        | None => ["electorate_of_unknown_proposal"%string] end) (o_electorate o) in
+  (tc ++ ac ++ wc ++ oc ++ rej ++ sc ++ fc ++ ec, mkK w' obs' recs3).
 
 Fixpoint ck_run (k : ck) (l : list (Z * Z * hop * obs)) : list string :=
   match l with [] => [] | st :: r => let '(c, k') := ck_step k st in c ++ ck_run k' r end.
@@ -347,7 +418,7 @@ Definition scen_clauses (name : string) (ncalls : Z) (ok : bool) (exec : Z) (unc
 
 Definition case_clauses (c : c08_case) : list string :=
   match c with
-  | CHist w0 steps => dedup (ck_run (mkK w0 []) steps)
+  | CHist w0 steps => dedup (ck_run (mkK w0 w0 []) steps)
   | CScen name _ ncalls ok exec _ unchanged full => scen_clauses name ncalls ok exec unchanged full
   end.
 
